@@ -435,4 +435,156 @@ def detachCI (ci : Bytes) : Res Bytes := do
   | [] => .err "parse"
   | o :: _ => .ok (tlv 0x30 o.full)
 
+/-! ### structural edits on the parsed SignedData tree (`Detach`, field replacement)
+
+  `sibs f` lists what every top-level sibling of a forest contributes to the encoding, so a
+  "field" of a Go struct is one entry of `sibs` of the children of its SEQUENCE node. -/
+namespace Forest
+
+/-- sibling-chain append -/
+def append : Forest → Forest → Forest
+  | .nil, g => g
+  | .raw full next, g => .raw full (append next g)
+  | .rawc t full next, g => .rawc t full (append next g)
+  | .prim t c next, g => .prim t c (append next g)
+  | .node t k next, g => .node t k (append next g)
+
+/-- the emitted bytes of every top-level sibling, in order -/
+def sibs : Forest → List Bytes
+  | .nil => []
+  | .raw full next => full :: sibs next
+  | .rawc tag full next => tlv tag (stripTagAndLength full) :: sibs next
+  | .prim tag c next => tlv tag c :: sibs next
+  | .node tag kids next => tlv tag (emit kids) :: sibs next
+
+def takeSibs : Nat → Forest → Forest
+  | 0, _ => .nil
+  | _ + 1, .nil => .nil
+  | i + 1, .raw full next => .raw full (takeSibs i next)
+  | i + 1, .rawc t full next => .rawc t full (takeSibs i next)
+  | i + 1, .prim t c next => .prim t c (takeSibs i next)
+  | i + 1, .node t k next => .node t k (takeSibs i next)
+
+def dropSibs : Nat → Forest → Forest
+  | 0, f => f
+  | _ + 1, .nil => .nil
+  | i + 1, .raw _ next => dropSibs i next
+  | i + 1, .rawc _ _ next => dropSibs i next
+  | i + 1, .prim _ _ next => dropSibs i next
+  | i + 1, .node _ _ next => dropSibs i next
+
+/-- `editField i new f`: field `i` replaced by the forest `new` (one node for a replacement, `.nil` for
+    a removal); the siblings before and after are the very same subtrees -/
+def editField (i : Nat) (new : Forest) (f : Forest) : Forest :=
+  append (takeSibs i f) (append new (dropSibs (i + 1) f))
+
+/-- apply `g` to the children of sibling `i` when that is a re-synthesised constructed node -/
+def inKids : Nat → (Forest → Forest) → Forest → Forest
+  | _, _, .nil => .nil
+  | 0, g, .node t k next => .node t (g k) next
+  | 0, _, .raw full next => .raw full next
+  | 0, _, .rawc t full next => .rawc t full next
+  | 0, _, .prim t c next => .prim t c next
+  | i + 1, g, .raw full next => .raw full (inKids i g next)
+  | i + 1, g, .rawc t full next => .rawc t full (inKids i g next)
+  | i + 1, g, .prim t c next => .prim t c (inKids i g next)
+  | i + 1, g, .node t k next => .node t k (inKids i g next)
+
+end Forest
+
+/-- content octets of the OBJECT IDENTIFIER a ContentInfo starts with (`ContentInfo.ContentType`) -/
+def ciOid (full : Bytes) : Option Bytes :=
+  match untlv full with
+  | .ok (_, c, _) =>
+    match untlv c with
+    | .ok (t, o, _) => if t = 0x06 then some o else none
+    | _ => none
+  | _ => none
+
+/-- `NewContentInfo(contentType, nil)`: `Raw` is nil, so the struct is emitted from its one field -/
+def detachedCI (oid : Bytes) : Forest := .node 0x30 (.prim 0x06 oid .nil) .nil
+
+/-- `Detach` on the children of the SignedData SEQUENCE (version, digestAlgorithms, contentInfo,
+    [certificates], [crls], signerInfos): the third field – the ContentInfo, held with its RawContent –
+    is replaced by the content-less one; nothing else is touched. -/
+def detachKids (kids : Forest) : Forest :=
+  match Forest.dropSibs 2 kids with
+  | .rawc _ full _ =>
+    match ciOid full with
+    | some oid => Forest.editField 2 (detachedCI oid) kids
+    | none => kids
+  | _ => kids
+
+/-- the `ContentInfoSignedData` tree: SEQUENCE { contentType, [0] EXPLICIT SEQUENCE { kids } } -/
+def wrapSD (oid : Bytes) (kids : Forest) : Forest :=
+  .node 0x30 (.prim 0x06 oid (.node 0xA0 (.node 0x30 kids .nil) .nil)) .nil
+
+/-- `(*ContentInfoSignedData).Detach` on the whole tree -/
+def detachSD (f : Forest) : Forest :=
+  Forest.inKids 0 (Forest.inKids 1 (Forest.inKids 0 detachKids)) f
+
+/-! ### the tree Go holds after `pkcs7.Unmarshal` (tie: what `Marshal` emits for it) -/
+
+def rawsOf (l : List Bytes) : Forest := l.foldr (fun b f => .raw b f) .nil
+def rawcsOf (l : List Bytes) : Forest := l.foldr (fun b f => .rawc 0x30 b f) .nil
+def chain (l : List Forest) : Forest := l.foldr Forest.append .nil
+
+/-- `pkix.AlgorithmIdentifier`: OID, optional raw parameters; further elements are dropped -/
+def algForest (full : Bytes) : Res Forest := do
+  let (_, c, _) ← orParse (untlv full)
+  let els ← orParse (splitTLVs c)
+  match els with
+  | o :: rest =>
+    .ok (.node 0x30 (.prim 0x06 o.bytes (match rest with | p :: _ => .raw p.full .nil | [] => .nil)) .nil)
+  | [] => .err "parse"
+
+/-- `pkix.CertificateList`: TBSCertList (RawContent), signatureAlgorithm, signatureValue -/
+def crlForest (full : Bytes) : Res Forest := do
+  let (_, c, _) ← orParse (untlv full)
+  let els ← orParse (splitTLVs c)
+  match els with
+  | tbs :: alg :: sig :: _ =>
+    let a ← algForest alg.full
+    .ok (.node 0x30 (.rawc 0x30 tbs.full (Forest.append a (.prim 0x03 sig.bytes .nil))) .nil)
+  | _ => .err "parse"
+
+/-- optional `[n] IMPLICIT` field holding a list: absent → nothing is emitted -/
+def optList (tag : UInt8) (mk : RawVal → Res Forest) : List RawVal → Res (Forest × List RawVal)
+  | r :: rest =>
+    if r.tag = tag then do
+      let els ← orParse (splitTLVs r.bytes)
+      let fs ← els.mapM mk
+      .ok (.node tag (chain fs) .nil, rest)
+    else .ok (.nil, r :: rest)
+  | [] => .ok (.nil, [])
+
+/-- the parsed `ContentInfoSignedData` as a tree, SET OF members in the order `asn1.Marshal` emits them -/
+def sdForest (bs : Bytes) : Res Forest := do
+  let (t, c, _) ← orParse (untlv bs)
+  if t ≠ 0x30 then .err "parse" else
+  let outer ← orParse (splitTLVs c)
+  match outer with
+  | o :: e1 :: _ =>
+    if o.tag ≠ 0x06 || e1.tag ≠ 0xA0 then .err "parse" else
+    let (t2, c2, _) ← orParse (untlv e1.bytes)
+    if t2 ≠ 0x30 then .err "parse" else
+    let kids ← orParse (splitTLVs c2)
+    match kids with
+    | v :: da :: ci :: rest =>
+      if v.tag ≠ 0x02 || da.tag ≠ 0x31 || ci.tag ≠ 0x30 then .err "parse" else
+      let das ← orParse (splitTLVs da.bytes)
+      let daF ← (sortBytes (das.map (·.full))).mapM algForest
+      let (certsF, rest) ← optList 0xA0 (fun r => .ok (.raw r.full .nil)) rest
+      let (crlsF, rest) ← optList 0xA1 (fun r => crlForest r.full) rest
+      match rest with
+      | s :: _ =>
+        if s.tag ≠ 0x31 then .err "parse" else
+        let sis ← orParse (splitTLVs s.bytes)
+        let sisF := rawcsOf (sortBytes (sis.map (·.full)))
+        .ok (wrapSD o.bytes (.prim 0x02 v.bytes (.node 0x31 (chain daF) (.rawc 0x30 ci.full
+          (Forest.append certsF (Forest.append crlsF (.node 0x31 sisF .nil)))))))
+      | [] => .err "parse"
+    | _ => .err "parse"
+  | _ => .err "parse"
+
 end Relic.Der
